@@ -257,6 +257,12 @@ R["C17"] = {"harnesses": [
     "assumptions": ["not covered (stated): run-time generated struct types (reflect.StructOf) - one fixed struct type only; Decoder/Encoder streams; float formatting with symbolic values (ints are concrete)", "reflect is a model (type/value semantics over the interpreter heap), shared by the fork and the standard library codec"],
     "outside_bound": ["templates outside the 8 listed, strings longer than 2 atoms, fold operands longer than 3+5 bytes"]}
 
+ORACLE = H("H_Oracle", [{}], None, ["oracle/end"], "oracle self-check (concrete): the reference evaluators reproduce RFC 6902 appendix A, RFC 6901 section 5, RFC 7396 appendix A and an RFC 8259 accept/reject table; a failure makes the run inconclusive")
+for pid in ("C01", "C02", "C03", "C05", "C06", "C07", "C08", "C13", "C14", "C15", "C16"):
+    R[pid]["harnesses"].append(ORACLE)
+R["C18"]["harnesses"].append(dict(ORACLE, target="legacy"))
+R["C19"]["harnesses"].append(dict(ORACLE, target="legacy"))
+
 if __name__ == "__main__":
     json.dump(R, open(os.path.join(V, "harness", "registry.json"), "w"), indent=1)
     print("registry:", sorted(R))
